@@ -1307,6 +1307,22 @@ func L2Views(thorough bool) []MethodCase {
 			add(t, defs, map[string]string{"shape": shape, "fixed": fixed})
 		}
 	}
+	// several methods of ONE service return the same result type: with a view fixed in the design
+	// and left to the implementation, in every order (what one method fixes must not leak)
+	for gi, order := range [][]string{{"tiny", ""}, {"", "tiny"}, {"tiny", "default"}, {"tiny", "", "default"}} {
+		td := &TypeDef{Name: fmt.Sprintf("RtShared%d", gi), Kind: "result",
+			Attrs:    []*Attr{A("aa", P(KString)), A("bb", P(KInt)), A("cc", P(KString))},
+			Required: []string{"aa"},
+			Views:    []View{{Name: "default", Attrs: []string{"aa", "bb"}}, {Name: "tiny", Attrs: []string{"aa"}}, {Name: "full", Attrs: []string{"aa", "bb", "cc"}}}}
+		for _, fixed := range order {
+			t := User(td.Name)
+			t.View = fixed
+			m := &Method{Name: fmt.Sprintf("m%d", n), Feat: map[string]string{"family": "L2-views", "shape": "shared-by-methods", "fixed": fixed, "order": strings.Join(order, ">")}, Result: t, HTTP: &HTTPMap{Verb: "GET"}}
+			m.HTTP.Path = "/" + m.Name
+			n++
+			out = append(out, MethodCase{M: m, Types: []*TypeDef{td}, SameService: fmt.Sprintf("shared-rt-%d", gi)})
+		}
+	}
 	// single default view only
 	{
 		td := &TypeDef{Name: "RtOne", Kind: "result",
